@@ -114,6 +114,22 @@ def copy_projection(U, w, cw):
             "wattr": wattr, "sep": cw is not w and all(cw is not x for x in U.wbs), "mirror": mirror}
 
 
+def flat_projection(U, seq, cw):
+    """WBS(tasks=seq): the new WBS as the getters report it; src[j] = the universe number of seq[j] when task j of
+    the new WBS carries its id (0 otherwise)"""
+    uni = {id(t): i + 1 for i, t in enumerate(U.tasks)}
+    ct = list(cw.tasks)
+    pos = {id(t): j + 1 for j, t in enumerate(ct)}
+    src = [uni[id(seq[j])] if j < len(seq) and ct[j].id == seq[j].id else 0 for j in range(len(ct))]
+    return {"src": src, "roots": [pos.get(id(t), 0) for t in cw.roots],
+            "kids": [[pos.get(id(c), 0) for c in t.children] for t in ct],
+            "pre": [[-uni.get(id(p), 0) for p in t.predecessors] for t in ct],
+            "suc": [[-uni.get(id(p), 0) for p in t.successors] for t in ct],
+            "own": [t.wbs is cw for t in ct], "fresh": [id(t) not in uni for t in ct],
+            "same": [j < len(seq) and fields(t) == fields(seq[j]) for j, t in enumerate(ct)],
+            "wattr": True, "sep": all(cw is not x for x in U.wbs), "mirror": True}
+
+
 def cproj(cw):
     """plain projection of a copy by ids (for the independence probes)"""
     return [(t.id, t.parent.id if t.parent else None, [c.id for c in t.children],
@@ -166,6 +182,12 @@ def events_of(blob, start_id, rng_seed):
         for k in (0, 1, 2):
             for s in itertools.product(members, repeat=k):
                 acts.append({"name": "Subtree", "w": wi, "seq": list(s)})
+        if wi == 1:
+            # the constructor form WBS(tasks=...): field-only clones of any tasks of the universe as roots of a new WBS
+            # (outside C10: judged by CopyTrace as drift-only conformance)
+            for k in (0, 1, 2):
+                for s in itertools.product(range(1, len(U.tasks) + 1), repeat=k):
+                    acts.append({"name": "Flat", "w": wi, "seq": list(s)})
         for a in acts:
             V = pickle.loads(blob)
             w = V.wbs[wi - 1]
@@ -173,6 +195,10 @@ def events_of(blob, start_id, rng_seed):
             try:
                 if a["name"] == "Clone":
                     cw = w.clone()
+                elif a["name"] == "Flat":
+                    roots = [V.task(x) for x in a["seq"]]
+                    form = eid % 3
+                    cw = common.pjplan().WBS(roots if form == 0 else tuple(roots) if form == 1 else (r for r in roots))
                 else:
                     roots = [V.task(x) for x in a["seq"]]
                     # the selection in every form the API accepts: list, bare task, tuple, one-shot iterables
@@ -190,7 +216,7 @@ def events_of(blob, start_id, rng_seed):
                   "copy": {"src": [], "roots": [], "kids": [], "pre": [], "suc": [], "own": [], "fresh": [], "same": [],
                            "wattr": True, "sep": True, "mirror": True}, "indep": []}
             if out == "ok":
-                ev["copy"] = copy_projection(V, w, cw)
+                ev["copy"] = (flat_projection(V, roots, cw) if a["name"] == "Flat" else copy_projection(V, w, cw))
                 ev["indep"] = probes(V, w, cw, post)
             evs.append(ev)
             eid += 1
@@ -206,10 +232,13 @@ def _work(args):
         e["id"] = start + i
     j = tlc.judge_one(wd, mod, evs, idx, heap="1g")
     byid = {e["id"]: e for e in evs}
-    fails = [(byid[t[1]], t[2], str(t[3])[:80]) for t in j["fails_full"]]
+    allf = [(byid[t[1]], t[2], str(t[3])[:80]) for t in j["fails_full"]]
+    fails = [f for f in allf if not f[1].startswith("DRIFT")]
+    drift = [(f[0]["act"], f[0]["pre"]["ch"], f[1], f[2]) for f in allf if f[1].startswith("DRIFT")]
     nontriv = sum(1 for e in evs if e["copy"]["src"])
     ext = sum(1 for e in evs if any(x < 0 for l in e["copy"]["pre"] + e["copy"]["suc"] for x in l))
-    return {"n": len(evs), "fails": fails, "nontrivial": nontriv, "external": ext, "jstates": j["states"],
+    return {"n": len(evs), "fails": fails, "drift": drift, "flat": sum(1 for e in evs if e["act"]["name"] == "Flat"),
+            "nontrivial": nontriv, "external": ext, "jstates": j["states"],
             "sample": evs[len(evs) // 2] if evs else None}
 
 
@@ -226,7 +255,8 @@ def run(tier, seed, log):
     log("copy: %d reachable states of the real objects (%.0fs)" % (len(blobs), time.time() - t0))
     U0 = graph.Universe(ids, W)
     fails = []
-    cov = {"states": len(blobs), "events": 0, "nontrivial": 0, "external": 0, "judge_states": 0, "samples": []}
+    cov = {"states": len(blobs), "events": 0, "nontrivial": 0, "external": 0, "judge_states": 0, "samples": [],
+           "flat": 0, "flat_drift": 0, "flat_drift_examples": []}
     # all blobs of one judge run must share the constants: split by universe size
     by_n = {}
     for b in blobs:
@@ -245,6 +275,9 @@ def run(tier, seed, log):
                     cov["nontrivial"] += r["nontrivial"]
                     cov["external"] += r["external"]
                     cov["judge_states"] += r["jstates"]
+                    cov["flat"] += r["flat"]
+                    cov["flat_drift"] += len(r["drift"])
+                    cov["flat_drift_examples"] += [str(d)[:300] for d in r["drift"][:2] if len(cov["flat_drift_examples"]) < 4]
                     if r["sample"] and len(cov["samples"]) < 3:
                         s = r["sample"]
                         cov["samples"].append({"pre": {k: s["pre"][k] for k in ("ch", "pre", "own")}, "act": s["act"],
@@ -256,7 +289,8 @@ def run(tier, seed, log):
         finally:
             import shutil
             shutil.rmtree(wd, ignore_errors=True)
-    log("copy: %d clone/subtree calls judged, %d failing clauses (%.0fs)" % (cov["events"], len(fails), time.time() - t0))
+    log("copy: %d clone/subtree calls judged, %d failing clauses; %d WBS(tasks=...) calls replayed, drift %d (%.0fs)"
+        % (cov["events"] - cov["flat"], len(fails), cov["flat"], cov["flat_drift"], time.time() - t0))
     return {"engine": "copy", "tier": tier, "seed": seed, "wall_s": time.time() - t0, "fails": fails, "coverage": cov}
 
 
@@ -312,6 +346,10 @@ def evidence(prop, res):
         "samples": cov["samples"], "exhaustive": True,
         "copies_with_links_to_outside_tasks": cov["external"], "graph_states": cov["states"],
         "checker_cmd": "tlc CopyTrace.tla (with TaskGraph.tla)",
+        "flat_constructor": {"calls_replayed": cov.get("flat", 0), "drift": cov.get("flat_drift", 0),
+                             "examples": cov.get("flat_drift_examples", []),
+                             "note": "WBS(tasks=seq) for every sequence of <= 2 universe tasks in every state, replayed "
+                                     "against JudgeFlat of CopyTrace.tla; outside C10: differences are drift, never violations"},
     }
     return {"level": "model_checking", "coverage": coverage,
             "assumptions": ["TLC and the projection of the copy (public getters, object identity) are trusted",
